@@ -525,7 +525,9 @@ def _scn_methods():
             raw.send_value({'type': 'PAYLOAD', 'sid': sid, 'next': False, 'complete': True, 'data': b'', 'metadata': None})
         elif kind == 'error':
             self.world.ev(raw.side, 'hand_end', uid=uid, dir=dirn, how='error', raw=True)
-            raw.send_value({'type': 'ERROR', 'sid': sid, 'code': 0x201, 'data': b'raw peer error'})
+            # (error data SHOULD be UTF-8 text, it need not be: 'bin' sends bytes that are not; 'bin_rejected' with another code)
+            data = b'raw peer error' if not arg else b'\xff\xfe raw \x80\x81 error'
+            raw.send_value({'type': 'ERROR', 'sid': sid, 'code': 0x202 if arg == 'bin_rejected' else 0x201, 'data': data})
         elif kind == 'request_n':
             self.world.ev(raw.side, 'raw_request_n', uid=uid, n=arg or 1)
             raw.send_value({'type': 'REQUEST_N', 'sid': sid, 'n': arg or 1})
